@@ -130,7 +130,7 @@ func (d *c14Drv) concretise(kinds []string, defKeys []string) []tline {
 			// no blank between key and colon: "KEY : v" with an upper-case key reads as a request line (grammar ambiguity, out of domain)
 			ln.text = strings.Repeat(" ", d.r.Intn(2)) + ln.A + ":" + strings.Repeat(" ", d.r.Intn(3)) + ln.B + strings.Repeat(" ", d.r.Intn(2))
 		case "BODY":
-			ln.A = []string{"b0.txt", "b1.txt", "b2.txt", "empty.txt"}[d.r.Intn(4)]
+			ln.A = []string{"b0.txt", "b1.txt", "b2.txt", "empty.txt", "run-12:30.bin", "k:v"}[d.r.Intn(6)] // a path may contain a colon
 			ln.B = bodyContentOf(ln.A)
 			ln.text = "@" + d.bodyFile(ln.A)
 		case "COM":
@@ -150,10 +150,19 @@ func targetKV(t *vegeta.Target) KV {
 }
 
 // decodeAll drives a targeter to exhaustion, logging every call and re-inspecting earlier targets.
-func (d *c14Drv) decodeAll(tr vegeta.Targeter) {
+func (d *c14Drv) decodeAll(tr vegeta.Targeter) { d.decode(tr, false) }
+
+// decode with reuse=true passes one Target variable to every call, the ordinary `var t Target; for tr(&t) == nil {...}`
+// loop of a caller (only asked of the http format, which builds every target from scratch; the JSON format documents
+// that it merges into what the caller passes).
+func (d *c14Drv) decode(tr vegeta.Targeter, reuse bool) {
 	var got []*vegeta.Target
+	slot := &vegeta.Target{}
 	for k := 1; ; k++ {
 		t := &vegeta.Target{}
+		if reuse {
+			t = slot
+		}
 		err := func() (err error) {
 			defer func() {
 				if r := recover(); r != nil {
@@ -176,6 +185,9 @@ func (d *c14Drv) decodeAll(tr vegeta.Targeter) {
 		kv := targetKV(t)
 		kv["k"], kv["res"] = k, "target"
 		d.tr.Emit("Decode", kv)
+		if reuse {
+			continue // the caller's variable is overwritten by the next call: nothing to re-inspect
+		}
 		got = append(got, t)
 		// earlier targets must be unchanged: all of them for short documents, a window otherwise
 		for j := range got[:len(got)-1] {
@@ -248,7 +260,7 @@ func (d *c14Drv) httpCase(kinds []string, spare bool, trailingNL bool, eager boo
 			}
 		}
 	} else {
-		d.decodeAll(tr)
+		d.decode(tr, d.r.Intn(3) == 0)
 	}
 	d.tr.Emit("Defaults", KV{"defs": hdrList(defHdr)})
 	d.tr.Emit("End", nil)
